@@ -121,7 +121,13 @@ class Scheduler:
         self.cur = None
         self.step = 0
         self.switches = []  # recorded [[step, to_tid]]
-        self.replay = {int(s): t for s, t in spec.get("switches", [])} if spec.get("strategy") == "replay" else None
+        # a recorded hand-over is identified by (running thread, code location, how many times that
+        # thread has been at that location) rather than by a global step number, so that a replay
+        # does not depend on how many other functions the tracer happens to watch
+        self.replay = None
+        if spec.get("strategy") == "replay":
+            self.replay = {(sw[0], tuple(sw[1]), sw[2]): sw[3] for sw in spec.get("switches", [])}
+        self.locvis = {}
         self.bound = spec.get("bound", 3)
         self.npre = 0
         self.deadlock = False
@@ -157,18 +163,23 @@ class Scheduler:
         self.step += 1
         self.locs_seen[loc] = self.locs_seen.get(loc, 0) + 1
         self.last_loc[me] = loc
+        vis = self.locvis[(me, loc)] = self.locvis.get((me, loc), 0) + 1
         others = self.runnable(exclude=me)
         if not others:
             return
         to = None
         if self.replay is not None:
-            to = self.replay.get(self.step)
+            to = self.replay.get((me, loc, vis))
             if to is not None and self.state.get(to) != "ready":
                 to = None
         elif self.npre < self.bound:
             st = self.spec.get("strategy", "random")
             if st == "random":
                 if self.rng.random() < self.spec.get("p", 0.02):
+                    to = self.rng.choice(sorted(others))
+            elif st == "step":
+                # pre-empt at given global yield-point numbers (drawn uniformly over the run)
+                if self.step in self.change_points:
                     to = self.rng.choice(sorted(others))
             elif st == "targeted":
                 # pre-empt at the nth yield point inside a named critical function
@@ -192,7 +203,7 @@ class Scheduler:
                     to = best
         if to is not None and to != me:
             self.npre += 1
-            self.switches.append([self.step, to])
+            self.switches.append([me, list(loc), vis, to])
             prev = self.last_loc.get(to)
             if prev is not None:
                 self.pairs.add((loc[:2], prev[:2]))
@@ -207,7 +218,6 @@ class Scheduler:
             self.reach("deadlock")
             raise Deadlock()
         to = sorted(others)[0] if self.replay is not None else self.rng.choice(sorted(others))
-        self.switches.append([self.step, to])
         self.hand_over(me, to)
 
     def wake(self, lock):
@@ -315,23 +325,33 @@ def run_scenario(sc):
         sim.orig_code[q] = f.__code__
 
     # ---- sequential model of each thread's own script (M-sel over the traced twin)
+    def rounds_of(th):
+        # a thread runs one or more rounds: activate own probe, call, deactivate
+        return th.get("rounds") or [{"probe": th.get("probe"), "calls": th.get("calls", [])}]
+
     expected = []
     for t, th in enumerate(sc["threads"]):
         tr = Tracer()
         sim.v["trc"].mod.T = tr
         outs = []
-        for i, op in enumerate(th["calls"]):
-            v = sim.v["trc"]
-            env = v.env.reset(op.get("tape", []), {}, base=100000 * (t + 1) + 1000 * i)
-            v.mod.ENV = env
-            out, _ = outcome_of(lambda: sim.call_thunk(op)(v, env))
-            outs.append(out)
-        evs = []
-        if th.get("probe"):
-            for sel in th["probe"]["sels"]:
-                evs += msel.immediate(sel, tr)
-            evs.sort(key=lambda e: e[0])
-        expected.append({"outs": outs, "events": [d for _, d in evs]})
+        events = []
+        n = 0
+        for rnd in rounds_of(th):
+            lo = len(tr.events)
+            for op in rnd["calls"]:
+                v = sim.v["trc"]
+                env = v.env.reset(op.get("tape", []), {}, base=100000 * (t + 1) + 1000 * n)
+                n += 1
+                v.mod.ENV = env
+                out, _ = outcome_of(lambda: sim.call_thunk(op)(v, env))
+                outs.append(out)
+            evs = []
+            if rnd.get("probe"):
+                for sel in rnd["probe"]["sels"]:
+                    evs += msel.immediate(sel, tr, lo, len(tr.events))
+                evs.sort(key=lambda e: e[0])
+            events.append([d for _, d in evs])
+        expected.append({"outs": outs, "events": events})
 
     # ---- the real thing under the scheduler
     sched = Scheduler(sc["sched"], stats)
@@ -351,31 +371,36 @@ def run_scenario(sc):
     def body(t):
         th = sc["threads"][t]
         res = results[t]
-        probe = None
+        n = 0
         try:
-            if th.get("probe"):
-                spec = th["probe"]
-                strs = [msel.render(s) for s in spec["sels"]]
-                if spec.get("kind") == "overlay":
-                    from ptera.selector import select
+            for rnd in rounds_of(th):
+                probe = None
+                got = []
+                res["events"].append(got)
+                if rnd.get("probe"):
+                    spec = rnd["probe"]
+                    strs = [msel.render(s) for s in spec["sels"]]
+                    if spec.get("kind") == "overlay":
+                        from ptera.selector import select
 
-                    probe = ptera.Overlay()
-                    for s in strs:
-                        probe.register(select(s, env=sel_env()), lambda args: res["events"].append(
-                            {k: canon(v) for k, v in args.items()}))
-                else:
-                    probe = ptera.probing(*strs, env=sel_env())
-                    probe.subscribe(lambda data: res["events"].append({k: canon(v) for k, v in data.items()}))
-                probe.__enter__()
-            for i, op in enumerate(th["calls"]):
-                env = tenv._envs[threading.get_ident()]
-                env.reset(op.get("tape", []), {}, base=100000 * (t + 1) + 1000 * i)
-                out, _ = outcome_of(lambda: sim.call_thunk(op)(sysv, env))
-                res["outs"].append(out)
-                if has_absent(out) or any(has_absent(e) for e in env.log):
-                    viol.append(["C16.no_absent", t, {"out": out}])
-            if probe is not None:
-                probe.__exit__(None, None, None)
+                        probe = ptera.Overlay()
+                        for s in strs:
+                            probe.register(select(s, env=sel_env()), lambda args, got=got: got.append(
+                                {k: canon(v) for k, v in args.items()}))
+                    else:
+                        probe = ptera.probing(*strs, env=sel_env())
+                        probe.subscribe(lambda data, got=got: got.append({k: canon(v) for k, v in data.items()}))
+                    probe.__enter__()
+                for op in rnd["calls"]:
+                    env = tenv._envs[threading.get_ident()]
+                    env.reset(op.get("tape", []), {}, base=100000 * (t + 1) + 1000 * n)
+                    n += 1
+                    out, _ = outcome_of(lambda: sim.call_thunk(op)(sysv, env))
+                    res["outs"].append(out)
+                    if has_absent(out) or any(has_absent(e) for e in env.log):
+                        viol.append(["C16.no_absent", t, {"out": out}])
+                if probe is not None:
+                    probe.__exit__(None, None, None)
         except Deadlock:
             res["error"] = ["deadlock"]
         except BaseException as e:  # noqa
@@ -433,9 +458,14 @@ def run_scenario(sc):
         if res["outs"] != exp["outs"]:
             viol.append(["C08.thread_result", t, {"expected": exp["outs"], "got": res["outs"]}])
         key = lambda d: repr(sorted(d.items(), key=repr))
-        if [key(d) for d in res["events"]] != [key(d) for d in exp["events"]]:
-            viol.append(["C08.thread_stream", t, {"sel": [msel.render(s) for s in sc["threads"][t]["probe"]["sels"]] if sc["threads"][t].get("probe") else None,
-                                                  "expected": exp["events"], "got": res["events"]}])
+        got_r = res["events"] + [[]] * (len(exp["events"]) - len(res["events"]))
+        for ri, (g, e) in enumerate(zip(got_r, exp["events"])):
+            if [key(d) for d in g] != [key(d) for d in e]:
+                rnd = rounds_of(sc["threads"][t])[ri]
+                viol.append(["C08.thread_stream", t, {
+                    "round": ri, "sel": [msel.render(x) for x in rnd["probe"]["sels"]] if rnd.get("probe") else None,
+                    "expected": e, "got": g}])
+                break
     if finished and not sched.deadlock:
         cs = sim.code_state()
         for q, d in cs.items():
@@ -462,9 +492,9 @@ def run_scenario(sc):
         "herr": herr,
         "stats": {"faults_fired": {"preemption": sched.npre}, "reach": stats, "kinds": {}},
         "sig": sig,
-        "events": sum(len(r["events"]) for r in results),
+        "events": sum(len(g) for r in results for g in r["events"]),
         "steps": sched.step,
-        "ops": sum(len(th["calls"]) for th in sc["threads"]),
+        "ops": sum(len(rnd["calls"]) for th in sc["threads"] for rnd in rounds_of(th)),
         "switches": sched.switches,
         "locs": _top_locs(sched.locs_seen),
     }
